@@ -157,6 +157,8 @@ class Taint:
             if ref.kind in ("repo", "classattr"):
                 if self.world.repo.is_notrace_ref(ref):
                     return "P"
+                if q == "autograd.tracer.getval":
+                    return "P"  # the tracer's own unboxing function: strips every level (decided by A13.unbox, getval clause)
                 if q.endswith(".vspace"):
                     return "P"
                 if self.world.repo.is_primitive_ref(ref):
